@@ -206,7 +206,7 @@ def targeted(ctx):
     T = []
 
     def add(name, pairs, drop=(), **kw):
-        base = configs.synthetic(rnd, addons=False, overpressure=False, **{'resmodel': 4, 'tspy': rnd.choice([1, 2, 4]), **kw})
+        base = configs.synthetic(rnd, addons=False, overpressure=False, **{'resmodel': 4, 'tspy': rnd.choice([1, 2, 4]), 'life': rnd.choice([5, 10, 15, 20, 30]), **kw})
         T.append((f'target:{name}', runner.params_to_text(override(base, pairs, drop))))
 
     for j, eu in enumerate([1, 2, 31] if ctx.quick else configs.ENDUSES):
@@ -532,6 +532,10 @@ def report_correspondence(ctx, spec, inputs, proofs_ok, batch=160):
     ctx.note(f'report check: {stats["runs"]} runs ({stats["rejected"]} inputs rejected by the simulator), {stats["numeric_lines"]} numeric lines, '
              f'{stats["tables"]} tables, {stats["cells"]} figures, {nterms} distinct Coq evaluations; '
              f'{sum(1 for x in executed if isinstance(x, int))} of {len(nodes)} specified lines exercised; simulator {tsim:.0f} s, Coq {tcoq:.0f} s')
+    unex = [(n['line'], gen.label_of(n)[:40]) for i, (c, n) in sorted(nodes.items()) if i not in executed]
+    ctx.count('spec-line-coverage', exercised=sum(1 for i in nodes if i in executed), total=len(nodes))
+    if unex:
+        ctx.note(f'specified lines no run exercised ({len(unex)} of {len(nodes)}): {unex}')
     findings = fw.load_findings()
     return executed, sum(1 for v in ctx.violations[before:] if fw.match_finding(findings, ctx.pid, v.key) is None)
 
